@@ -1,6 +1,7 @@
 package main
 
 import (
+	"context"
 	_ "embed"
 	"fmt"
 	"go/token"
@@ -217,6 +218,13 @@ func (e *Engine) VerifyFunction(fn *ssa.Function, opts VerifyOpts) (u *Unit) {
 		u.AssumeRaw(f)
 		u.inputs = append(u.inputs, t.S)
 	}
+	if recv := fn.Signature.Recv(); recv != nil && len(fn.Params) > 0 {
+		if _, isPtr := recv.Type().Underlying().(*types.Pointer); isPtr {
+			// standing assumption: methods are called on non-nil receivers
+			u.AssumeRaw(Not(Eq(x.regs[fn.Params[0]].(Term), TNil)))
+			u.notes = append(u.notes, "pointer receivers are assumed non-nil")
+		}
+	}
 	for _, fv := range fn.FreeVars {
 		// free variables of a closure verified on its own: unknown heap cells
 		et := fv.Type().Underlying().(*types.Pointer).Elem()
@@ -279,6 +287,10 @@ func (e *Engine) VerifyFunction(fn *ssa.Function, opts VerifyOpts) (u *Unit) {
 				}
 				u.AddObl(fmt.Sprintf("%s / ensures[%s] @return#%d", name, clauseName(en, i), r.ord), "ensures", en.Text, r.reach, g, e.fset.Position(r.pos), name)
 			}
+			so := u.AddObl(fmt.Sprintf("%s / smoke[return#%d reachable]", name, r.ord), "vacuity", "return site is reachable under the assumptions in force (assumptions are consistent)", r.reach, TFalse, e.fset.Position(r.pos), name)
+			if so != nil {
+				so.ExpectSat = true
+			}
 			// locks released
 			for k := range u.lockKeys {
 				if held, ok := r.st.cells[k].(Term); ok {
@@ -320,7 +332,13 @@ func (e *Engine) Discharge(obls []*Obligation, dir string, timeout int, all bool
 			} else {
 				name := fmt.Sprintf("q%04d", i)
 				o.File = filepath.Join(dir, name+".smt2")
-				o.Res = Solve(dir, name, q, timeout, all)
+				if o.ExpectSat {
+					// satisfiability smoke checks: one solver, short
+					r := runOne(context.Background(), solvers[0], writeQuery(dir, name, q), 2)
+					o.Res = SolverResult{Verdict: r.Verdict, Solver: r.Solver, Seconds: r.Seconds, All: []SolverRun{r}}
+				} else {
+					o.Res = Solve(dir, name, q, timeout, all)
+				}
 				if o.Res.Verdict == "sat" && !o.ExpectSat && len(o.Unit.inputs) > 0 {
 					o.Model = GetModel(dir, name, q, o.Unit.inputs, o.Res.Solver, 10)
 				}
@@ -339,4 +357,10 @@ func (o *Obligation) Holds() bool {
 		return o.Res.Verdict != "unsat" // satisfiable or unknown: not vacuous
 	}
 	return o.Res.Verdict == "unsat"
+}
+
+func writeQuery(dir, name, q string) string {
+	f := filepath.Join(dir, name+".smt2")
+	os.WriteFile(f, []byte(q), 0o644)
+	return f
 }
